@@ -8,6 +8,8 @@ import random
 import numpy as np
 
 from .. import gen
+
+gen.WIDE_RATE = 0.01   # wide (~100 operation) instances are costly here: a small share
 from ..drive import Run, gen_history_case
 
 ID = "C11"
@@ -97,6 +99,12 @@ def gen_cases(ctx):
             c["observers"] = [{"type": "earliest_start_time", "feature_types": None, "form": "class"}]
             c["huge"] = True
         yield c
+    for i in range(ctx.scale(2, 56)):
+        # a job of more than 256 operations (counters and positions beyond 8 bits)
+        yield {"kind": "history", "mode": "all_composite", "policy": "random_ready", "filter": None,
+               "seed": rng.randrange(2**31), "instance": gen.long_instance(rng), "episodes": 1,
+               "abandon": False, "sibling": False,
+               "observers": [{"type": t, "feature_types": None, "form": "class"} for t in TYPES]}
     for i in range(ctx.scale(600, 72000)):
         inst = gen.gen_instance(rng, None, max_jobs=rng.choice([1, 2, 3, 4, 5]), max_machines=rng.choice([1, 2, 3, 4]))
         yield {"kind": "construct", "instance": inst, "seed": rng.randrange(2**31)}
